@@ -43,14 +43,18 @@ theorem self_referential_head_rejected (s : Summary) (D : Name → Prop) (hr : R
   obtain ⟨e', he'⟩ := desugar_error_of_expandRule hr' he
   exact rejected_of_desugar_error hr he'
 
-/-- within the budget the only way expansion can fail is the `flatten_punctuated` panic (finding FM7) -/
+/-- within the budget expansion succeeds (before fix 71f89c5 it could still fail with the
+`flatten_punctuated` panic, finding FM7) -/
 theorem expandItem_fits (ms : List MacroDef) :
     ∀ (n : Nat) (it : Item), Fits ms n it → ∀ (fuel : Nat) (σ : Env) (π : List Nat), n ≤ fuel →
-      (∃ its, expandItem ms fuel σ π it = .ok its) ∨ expandItem ms fuel σ π it = .error .panicFlatten := by
+      ∃ its, expandItem ms fuel σ π it = .ok its := by
   intro n it h fuel σ π hn
   cases hex : expandItem ms fuel σ π it with
-  | ok its => exact Or.inl ⟨its, rfl⟩
-  | error e => rw [expandItem_fits_err ms n it h fuel σ π hn e hex]; exact Or.inr rfl
+  | ok its => exact ⟨its, rfl⟩
+  | error e =>
+    have := expandItem_fits_err ms n it h fuel σ π hn e hex
+    subst this
+    exact absurd hex (expandItem_ne_panicFlatten ms fuel σ π it)
 
 /-- expansion never returns a macro invocation -/
 inductive NoMac : Item → Prop
@@ -239,9 +243,10 @@ theorem check_no_leftover (s : Summary) : check s ≠ .error .panicLeftover := b
   revert this
   decide
 
-/-- a panic of the pipeline is one of the four recorded sites -/
+/-- a panic of the pipeline is one of the three recorded sites (four before fix 71f89c5 made
+`flatten_punctuated` total) -/
 theorem check_panic_sites (s : Summary) (e : Err) (h : check s = .error e) (hp : e.isPanic = true) :
-    e = .panicAggBound ∨ e = .panicSigName ∨ e = .panicSigGenerics ∨ e = .panicFlatten := by
+    e = .panicAggBound ∨ e = .panicSigName ∨ e = .panicSigGenerics := by
   have := check_panic_or h
   revert this hp
   cases e <;> decide
